@@ -349,6 +349,9 @@ def snapshot_dir(root: str) -> dict[str, bytes]:
     for d, _dirs, files in os.walk(root):
         for fn in files:
             p = os.path.join(d, fn)
+            if os.path.islink(p) and not os.path.exists(p):        # a dangling symbolic link: recorded as such
+                out[os.path.relpath(p, root)] = b"<dangling link to " + os.readlink(p).encode() + b">"
+                continue
             with _real_open(p, "rb") as f:
                 out[os.path.relpath(p, root)] = f.read()
     return out
